@@ -123,6 +123,22 @@ SPECS = {
             },
         ],
     },
+    "Sampling": {
+        "source": "artap/doe.py",
+        "serves": ["C12"],
+        "imports": ["ArtapModel.Model.Sampling"],
+        "functions": [
+            {   # the inner `while i > 0` loop runs on fuel `n_sample` (i < n_sample and every pass at least halves i
+                # when base >= 2; base = 1 does not terminate = out of fuel, base = 0 raises in divmod)
+                "py": "_van_der_corput", "lean": "van_der_corput",
+                "py_params": ["n_sample", "base"], "allow_defaults": True,
+                "params": [("n_sample", "Nat"), ("base", "Nat")],
+                "vars": {"n_sample": "Nat", "base": "Nat"},
+                "ret": L("Rat"), "raises": True,
+                "fuel": ["n_sample"],
+            },
+        ],
+    },
     "Dominance": {
         "source": "artap/operators.py",
         "serves": ["C01", "C02", "C03", "C04", "C09"],
